@@ -4,6 +4,7 @@ import ast
 
 from ..core import cfront as C
 from ..core.analysis import Analysis, assigned_names, facts
+from ..core.astutil import deref
 from ..core.cfg import decompose_guard
 from ..core.pyrepo import Repo, calls_in, dotted, norm_stmt
 from ..core.report import AnalysisError
@@ -182,7 +183,7 @@ def run(ctx):
         ctx.fail("C18.R3", "ionice_get:type", ig.file, ig.node.lineno, ig.qual,
                  "ionice() no longer returns pionice(IOPriority(class), value) in that order")
     fa_get = [n for n in ast.walk(fa.node) if isinstance(n, ast.Return) and n.value is not None]
-    if fa_get and norm_stmt(fa_get[0].value).replace(" ", "") == \
+    if fa_get and norm_stmt(deref(fa.node, fa_get[0].value)).replace(" ", "") == \
             "sorted(set(self._proc.cpu_affinity_get()))":
         ctx.ok("C18.R3", "cpu_affinity:get", sample="sorted(set(native list))")
     else:
